@@ -80,7 +80,7 @@ pub fn walk(ctx: &mut Ctx, g: &Guarded, bi: &BootInformation) {
         }
     }
     // provided Iterator methods on fresh iterators
-    for k in [0, 1, n.saturating_sub(1), n, n + 1] {
+    for k in [0, 1, n.saturating_sub(1), n, n + 1, n + 2, n + 3, n + 7] {
         let v = match guard(|| bi.tags().nth(k)) {
             Ok(Some(t)) => format!("VAL {}", view(g, t)),
             Ok(None) => "VAL none".to_string(),
@@ -233,7 +233,7 @@ pub fn k_efi_mmap(ctx: &mut Ctx, g: &Guarded, t: &EFIMemoryMapTag) {
     }
     // provided Iterator methods on fresh iterators: nth(k) around the number of entries, count()
     let n = guard(|| t.memory_areas().len()).unwrap_or(0);
-    for k in [0, 1, n.saturating_sub(1), n, n + 1] {
+    for k in [0, 1, n.saturating_sub(1), n, n + 1, n + 2, n + 3, n + 7] {
         let mut it = t.memory_areas();
         let v = match guard(|| it.nth(k)) {
             Ok(Some(d)) => format!("VAL {} len={}", view(g, d), gv(|| it.len())),
@@ -295,7 +295,7 @@ pub fn k_elf(ctx: &mut Ctx, g: &Guarded, t: &ElfSectionsTag) {
     }
     // provided Iterator methods on fresh iterators: nth(k) around the stored entry count, count()
     if total <= 4096 {
-        for k in [0, 1, total.saturating_sub(1), total, total + 1] {
+        for k in [0, 1, total.saturating_sub(1), total, total + 1, total + 2, total + 3, total + 7] {
             let mut it = t.sections();
             let v = match guard(|| it.nth(k)) {
                 Ok(Some(_)) => {
